@@ -22,7 +22,8 @@ CONSTANTS MaxCnt,        \* largest device count of a request
           Amounts,       \* per-instance request amounts (percent)
           DupCheck,      \* isValid skips an add for a pod already in the allocateSet of the type
           KnownCheck,    \* isValid skips a delete for a pod that is not in the allocateSet of the type
-          ResetFree      \* resetDeviceFree is called after deviceUsed changed
+          ResetFree,     \* resetDeviceFree is called after deviceUsed changed
+          CmpOK          \* the allocator compares request <= free (FALSE: reversed)
 
 VARIABLES usedL,   \* deviceUsed      [Types -> [Minors -> [ResOf(t) -> Nat]]]
           freeL,   \* deviceFree
@@ -70,7 +71,8 @@ Becomes(L) == usedL' = L.used /\ freeL' = L.free /\ setL' = L.set
 \* defaultAllocateDevices on the ledger free: required filter, devices whose free is all zero skipped,
 \* LessThanOrEqual(request, free); order = preferred first, then minor (no scorer); the first cnt are taken
 IsZeroL(t, m) == \A r \in ResOf(t) : freeL[t][m][r] = 0
-GoodL(t, req, required) == {m \in MayUse(t, required) : ~IsZeroL(t, m) /\ \A r \in DOMAIN req : req[r] <= freeL[t][m][r]}
+GoodL(t, req, required) == {m \in MayUse(t, required) : ~IsZeroL(t, m) /\ \A r \in DOMAIN req :
+                               IF CmpOK THEN req[r] <= freeL[t][m][r] ELSE req[r] >= freeL[t][m][r]}
 Rank(m, pref) == IF m \in pref THEN m ELSE m + 1000
 Granted(t, m, req) == [r \in ResOf(t) |->
     IF r \in DOMAIN req THEN req[r]
@@ -88,18 +90,15 @@ ForeignMenu == {[t |-> t, m |-> m,
                  res |-> IF t = "gpu" THEN [core |-> a, ratio |-> a, mem |-> (a * GpuMem) \div 100] ELSE [r \in ResOf(t) |-> a]] :
                 t \in Types, m \in Minors, a \in Amounts}
 
-MInventory == \E healthy \in SUBSET Devs :
-    LET inv == [t \in Types |-> [m \in Minors |-> IF <<t, m>> \in healthy THEN Full(t) ELSE ZeroRes(t)]] IN
-    /\ Inventory(inv)
+\* parameterised steps (Gen_Device logs the parameters), then the existential closures explored by MC
+InvFor(healthy) == [t \in Types |-> [m \in Minors |-> IF <<t, m>> \in healthy THEN Full(t) ELSE ZeroRes(t)]]
+PInventory(healthy) ==
+    /\ Inventory(InvFor(healthy))
     /\ usedL' = usedL /\ setL' = setL
-    /\ freeL' = [t \in Types |-> [m \in Minors |-> [r \in ResOf(t) |-> Max0(inv[t][m][r] - usedL[t][m][r])]]]   \* resetDeviceTotal
+    /\ freeL' = [t \in Types |-> [m \in Minors |-> [r \in ResOf(t) |-> Max0(InvFor(healthy)[t][m][r] - usedL[t][m][r])]]]   \* resetDeviceTotal
     /\ akOK' = TRUE
 
-\* (a scheduling attempt that is not committed leaves the state unchanged and has the same outcome: commit = TRUE only;
-\*  required = all minors is the same as no restriction)
-MAlloc == \E p \in Pods, t \in Types, cnt \in 1..MaxCnt, required \in (SUBSET Minors) \ {Minors}, pref \in {{}, {Max(Minors)}},
-             commit \in {TRUE} :
-          \E req \in ReqMenu(t) :
+PAlloc(p, t, req, cnt, required, pref, commit) ==
     LET out  == AllocImpl(t, req, cnt, (t :> required), pref)
         reqs == (t :> [req |-> req, cnt |-> cnt])
     IN /\ ~api[p].node /\ resv[p] = {}
@@ -111,21 +110,39 @@ MAlloc == \E p \in Pods, t \in Types, cnt \in 1..MaxCnt, required \in (SUBSET Mi
             ELSE UNCHANGED <<resv, usedL, freeL, setL>>
        /\ UNCHANGED total /\ KeepExempt
 
-MUnreserve == \E p \in Pods : Unreserve(p) /\ Becomes(UCU(Cur, total, resv[p], p, FALSE)) /\ akOK' = TRUE
 \* informer events: the handler sees (old, new); old is the object delivered last
 Deliver(p, old, new) == Becomes(UpdatePod(Cur, total, p, old, new)) /\ akOK' = TRUE
-MCreate    == \E p \in Pods : Create(p) /\ Deliver(p, NoPod, api'[p])
-MBind      == \E p \in Pods : Bind(p) /\ Deliver(p, api[p], api'[p])
-MTouch     == \E p \in Pods : Touch(p) /\ Deliver(p, api[p], api[p])
-MReAdd     == \E p \in Pods : ReAdd(p) /\ Deliver(p, NoPod, api[p])
-MAnnotate  == \E p \in Pods, e \in ForeignMenu : Annotate(p, {e}) /\ Deliver(p, api[p], api'[p])
-MTerminate == \E p \in Pods : Terminate(p) /\ Deliver(p, api[p], api'[p])
-MUnassign  == \E p \in Pods : Unassign(p) /\ Deliver(p, api[p], [api[p] EXCEPT !.node = FALSE])
-MDelete    == \E p \in Pods : Delete(p) /\ Becomes(DeletePod(Cur, total, p, api[p])) /\ akOK' = TRUE
+PUnreserve(p) == Unreserve(p) /\ Becomes(UCU(Cur, total, resv[p], p, FALSE)) /\ akOK' = TRUE
+PCreate(p)    == Create(p) /\ Deliver(p, NoPod, api'[p])
+PBind(p)      == Bind(p) /\ Deliver(p, api[p], api'[p])
+PTouch(p)     == Touch(p) /\ Deliver(p, api[p], api[p])
+PReAdd(p)     == ReAdd(p) /\ Deliver(p, NoPod, api[p])
+PAnnotate(p, e) == Annotate(p, {e}) /\ Deliver(p, api[p], api'[p])
+PTerminate(p) == Terminate(p) /\ Deliver(p, api[p], api'[p])
+PUnassign(p)  == Unassign(p) /\ Deliver(p, api[p], [api[p] EXCEPT !.node = FALSE])
+PDelete(p)    == Delete(p) /\ Becomes(DeletePod(Cur, total, p, api[p])) /\ akOK' = TRUE
 \* duplicate delete: the handler gets some object the pod had before it went away (any assigned object with a menu allocation)
-MReDelete  == \E p \in Pods, e \in ForeignMenu :
-                 ReDelete(p) /\ Becomes(DeletePod(Cur, total, p, [exists |-> TRUE, node |-> TRUE, term |-> FALSE, alloc |-> {e}])) /\ akOK' = TRUE
-MAdd       == \E p \in Pods, e \in ForeignMenu : AddAssigned(p, {e}) /\ Deliver(p, NoPod, api'[p])
+PReDelete(p, e) == ReDelete(p) /\ Becomes(DeletePod(Cur, total, p, [exists |-> TRUE, node |-> TRUE, term |-> FALSE, alloc |-> {e}])) /\ akOK' = TRUE
+PAdd(p, e)    == AddAssigned(p, {e}) /\ Deliver(p, NoPod, api'[p])
+
+\* (a scheduling attempt that is not committed leaves the state unchanged and has the same outcome: commit = TRUE only;
+\*  required = all minors is the same as no restriction)
+RequiredMenu == (SUBSET Minors) \ {Minors}
+PrefMenu     == {{}, {Max(Minors)}}
+MInventory == \E healthy \in SUBSET Devs : PInventory(healthy)
+MAlloc     == \E p \in Pods, t \in Types, cnt \in 1..MaxCnt, required \in RequiredMenu, pref \in PrefMenu :
+                 \E req \in ReqMenu(t) : PAlloc(p, t, req, cnt, required, pref, TRUE)
+MUnreserve == \E p \in Pods : PUnreserve(p)
+MCreate    == \E p \in Pods : PCreate(p)
+MBind      == \E p \in Pods : PBind(p)
+MTouch     == \E p \in Pods : PTouch(p)
+MReAdd     == \E p \in Pods : PReAdd(p)
+MAnnotate  == \E p \in Pods, e \in ForeignMenu : PAnnotate(p, e)
+MTerminate == \E p \in Pods : PTerminate(p)
+MUnassign  == \E p \in Pods : PUnassign(p)
+MDelete    == \E p \in Pods : PDelete(p)
+MReDelete  == \E p \in Pods, e \in ForeignMenu : PReDelete(p, e)
+MAdd       == \E p \in Pods, e \in ForeignMenu : PAdd(p, e)
 
 MInit == /\ Init
          /\ usedL = NoDevices /\ freeL = NoDevices /\ setL = [p \in Pods |-> {}] /\ akOK = TRUE
@@ -138,4 +155,6 @@ InvC  == /\ \A t \in Types, m \in Minors : \A r \in ResOf(t) : usedL[t][m][r] = 
          /\ setL = AllocSet
 InvF  == \A t \in Types, m \in Minors : \A r \in ResOf(t) : freeL[t][m][r] = Max0(total[t][m][r] - usedL[t][m][r])
 InvAK == akOK
+\* non-vacuity probes (MC_bug_*.cfg): these must be VIOLATED, i.e. the situations are reached
+NeverExempt == exempt = {}
 =============================================================================
